@@ -174,7 +174,7 @@ func (nr *netRun) checkC09(x *xfer) {
 			}
 			if s, ok := n.State(x.chid); ok && !isTerminal(s.Status) {
 				// F2 victims (channel lock held for ever) are reported by the every-call-returns oracle
-				r.Failf("C09", "closed-but-not-terminal", n.Name+"|"+datatransfer.Statuses[s.Status], "node %s handed a cancel message for channel #%d to the network (closing it) but the channel is %s at quiescence after settle", n.Name, x.idx, datatransfer.Statuses[s.Status])
+				r.Failf("C09", "closed-but-not-terminal", n.Name+"|"+datatransfer.Statuses[s.Status]+nr.cancelBeforeOpen(n, x), "node %s handed a cancel message for channel #%d to the network (closing it) but the channel is %s at quiescence after settle", n.Name, x.idx, datatransfer.Statuses[s.Status])
 			}
 			r.Probe("cancel-message-sent")
 			break
@@ -228,7 +228,7 @@ func (nr *netRun) checkC09(x *xfer) {
 					}
 				}
 				if !endedOtherwise {
-					r.Failf("C09", "close-wrong-final-status", op.Kind+"|"+datatransfer.Statuses[s.Status], "node %s: %s of channel #%d returned nil but the channel settled in %s", n.Name, op.Kind, x.idx, datatransfer.Statuses[s.Status])
+					r.Failf("C09", "close-wrong-final-status", op.Kind+"|"+datatransfer.Statuses[s.Status]+nr.cancelBeforeOpen(n, x), "node %s: %s of channel #%d returned nil but the channel settled in %s", n.Name, op.Kind, x.idx, datatransfer.Statuses[s.Status])
 				}
 			}
 		}
@@ -380,6 +380,22 @@ func (nr *netRun) checkChannelCount() {
 			}
 		}
 	}
+}
+
+// cancelBeforeOpen: F16 - the node's application closed the channel in the instant between its creation and its Open
+// event (the responder learns the channel id from the validator callback, before acceptance has finished): the Cancel
+// is applied first and the Open that follows takes the channel from Cancelling back to Requested.
+func (nr *netRun) cancelBeforeOpen(n *Node, x *xfer) string {
+	seenCancel := false
+	for _, e := range lifeEvents(n, x.chid, n.life) {
+		if e.Code == datatransfer.Cancel {
+			seenCancel = true
+		}
+		if e.Code == datatransfer.Open && seenCancel {
+			return "|cancel-applied-before-the-open-event"
+		}
+	}
+	return ""
 }
 
 // ---------------------------------------------------------------- C11
